@@ -93,6 +93,8 @@ class Spec:
         self.fn = fn
         self.file = file
         self.kv = kv
+        # per-property tier override written by the rep expansion: qprops = properties for which this instance is quick
+        self.qprops = kv.get("qprops")
 
 
 def _expand_range(r):
@@ -153,7 +155,17 @@ def load_harness_file(path):
                         if q is not None or q2 is not None:
                             isq = (q is None or v in q) and (q2 is None or v2 is None or v2 in q2)
                             tier = "quick" if isq else "thorough"
-                            t = re.sub(r"(// @h [^\n]*)", lambda m: m.group(1) + f" tier={tier}", t, count=1)
+                            extra = f" tier={tier}"
+                            # quick_<PROP>="..." narrows the quick set for that property (values of the first variable)
+                            narrowed = []
+                            for key, val in kv.items():
+                                if key.startswith("quick_"):
+                                    narrowed.append((key[6:], set(_expand_range(val))))
+                            if narrowed and isq:
+                                allp = kv.get("prop", "").split(",")
+                                qp = [p_ for p_ in allp if not any(n == p_ and v not in vs for n, vs in narrowed)]
+                                extra += " qprops=" + ",".join(qp)
+                            t = re.sub(r"(// @h [^\n]*)", lambda m: m.group(1) + extra, t, count=1)
                         add_block(t)
             else:
                 add_block(text)
@@ -188,6 +200,8 @@ def select(prop, tier, only=None):
         if only:
             return any(re.search(o, s.id) or re.search(o, s.fn) for o in only)
         if tier == "quick":
+            if s.qprops is not None and prop not in s.qprops.split(","):
+                return False
             return s.tier == "quick"
         return s.tier in ("quick", "thorough")
 
@@ -457,6 +471,7 @@ class HResult:
         self.props_total = 0
         self.props_checked = 0
         self.vccs = 0
+        self.steps = 0
         self.vccs_remaining = 0
         self.vars = 0
         self.clauses = 0
@@ -488,6 +503,9 @@ def parse_cbmc_text(path, res):
         res.symex_s += float(m.group(1))
     for m in re.finditer(r"Runtime Solver: ([\d.e+-]+)s", txt):
         res.solver_s += float(m.group(1))
+    m = re.search(r"size of program expression: (\d+) steps", txt)
+    if m:
+        res.steps = int(m.group(1))
     m = re.search(r"Generated (\d+) VCC\(s\), (\d+) remaining after simplification", txt)
     if m:
         res.vccs, res.vccs_remaining = int(m.group(1)), int(m.group(2))
